@@ -357,6 +357,20 @@ def ctags(remaining: Any, fns: list) -> str:
 # one patch_obj case
 # ---------------------------------------------------------------------------------------------
 
+def share(term: str, values: list) -> str:
+    """The same term with the bodies which occur several times bound once (`let`): the case files are parsed faster."""
+    binds = []
+    for v in values:
+        if v is None:
+            continue
+        t = cq.cjson(v)
+        if len(t) > 150 and term.count(t) > 1:
+            name = f'kvb{len(binds)}'
+            term = term.replace(t, name)
+            binds.append(f'let {name} := {t} in ')
+    return '(' + ''.join(binds) + term + ')' if binds else term
+
+
 def case_desc(shape: str, sub: bool, fault: Any, slip: Any, fnv: str | None, extra: dict | None = None) -> dict:
     d = {'level': 'function', 'fn': 'patch_obj', 'shape': shape, 'subresource': sub, 'fault': list(fault) if fault else None,
          'slip': list(slip) if slip else None, 'fns': fnv}
@@ -405,9 +419,50 @@ def patch_obj_case(o: dict) -> fw.Case:
     call = (f'(patch_obj po_script po_scripted (po_recorded_diff {cdiffs(o["diffs"])}) {cq.cbool(desc["subresource"])} '
             f'{cobj(o["content"])} {fns_t} {orig_t} {script})')
     term = f'(let r := {call} in po_obs_eqb (po_obs r) ({reqs}, {out_t}) && negb (po_nonempty (r_srv r)))'
+    term = share(term, [x.body for x in reversed(sess.log)] + [o['original']])
     data = dict(desc, requests=[x.brief() for x in sess.log],
                 outcome=(['returned', o['val'][0], None if o['val'][1] is None else len(o['val'][1].fns)] if o['how'] == 'ok' else ['raised', repr(o['val'])]))
     return fw.Case(term, data, diag=f'po_obs {call}')
+
+
+def server_case(o: dict) -> fw.Case | None:
+    """The same run in the CLOSED model: patch_obj against the Gallina stateful server po_wserve (instance po_fake_*), which must
+    give the same requests, outcome and final server object as the real patch_obj against FakeAPI.  None: outside what the
+    Gallina server mirrors (injected responses, delete/recreate, writes that change nothing, objects under deletion)."""
+    desc, sess = o['desc'], o['sess']
+    log = sess.log
+    if o['original'] is None or desc.get('deleting') or not log or any(x.injected for x in log):
+        return None
+    fired = [(i, x) for i, x in enumerate(log) if x.slipped]
+    if any(x.slipped not in ('edit', 'fin_add', 'fin_remove') or not x.slip_changed for _, x in fired):
+        return None
+    if any(x.status == 200 and x.after == x.before for x in log) or any(x.status not in (200, 422) for x in log):
+        return None
+    if fired:
+        i, x = fired[0]
+        f = {'edit': lambda: f'(po_fake_set_ann "foreign" {cq.cjson(x.before["metadata"]["annotations"]["foreign"])})',
+             'fin_add': lambda: f'(po_fake_fin_add {cq.cstr(FOREIGN_ADDED)})',
+             'fin_remove': lambda: f'(po_fake_fin_remove {cq.cstr(FIN)})'}[x.slipped]()
+        slip_t, foreign_t = cq.cnat(i), f'(po_fake_edit {f})'
+    else:
+        slip_t, foreign_t = cq.cnat(9), '(fun o => o)'
+    obj0 = o['original']
+    c0 = int(obj0['metadata']['resourceVersion'])
+    fns_t = cq.clist(fn_term(k, i) for i, k in enumerate(o['fn_kinds']))
+    reqs = cq.clist(creq(x) for x in log)
+    if o['how'] == 'ok':
+        body, remaining = o['val']
+        out_t = f'(ReturnedT {cq.copt(None if body is None else cq.cjson(body))} {ctags(remaining, o["fns"])})'
+    else:
+        out_t = f'(RaisedT {cerr(o["val"])})'
+    final = o['api'].get(o['kind'], NS, NAME)
+    sub_t = cq.cbool(desc['subresource'])
+    call = (f'(patch_obj po_world (po_wserve po_fake_rvs po_fake_post {sub_t} {slip_t} {foreign_t}) (po_recorded_diff {cdiffs(o["diffs"])}) '
+            f'{sub_t} {cobj(o["content"])} {fns_t} (Some {cq.cjson(obj0)}) (mkW (Some {cq.cjson(obj0)}) {cq.cnat(c0)} 0 nil))')
+    term = f'(let r := {call} in po_obs_eqb (po_obs r) ({reqs}, {out_t}) && po_ojeqb (w_obj (r_srv r)) {cq.copt(None if final is None else cq.cjson(final))})'
+    term = share(term, [final, obj0] + [x.body for x in reversed(log)])
+    data = dict(desc, tie='closed model: po_wserve vs FakeAPI', requests=[x.brief() for x in log], final=final)
+    return fw.Case(term, data, diag=f'(let r := {call} in (po_obs r, w_obj (r_srv r)))')
 
 
 # ---------------------------------------------------------------------------------------------
@@ -737,7 +792,7 @@ def apply_case(o: dict) -> fw.Case:
     call = (f'(po_apply po_script po_scripted (po_recorded_diff {cdiffs(o["diffs"])}) {cq.cbool(desc["subresource"])} {cobj(o["content"])} '
             f'(fun _ => {cobj(o["cleared"])}) {fns_t} (Some {cq.cjson(o["obj0"])}) {cq.clist(cq.cZ(d) for d in desc["delays"])} '
             f'{cq.cbool(desc["woken"])} {cobj(o["touch_patch"])} {script})')
-    term = f'(po_apply_obs_eqb (po_apply_observe {call}) {exp})'
+    term = share(f'(po_apply_obs_eqb (po_apply_observe {call}) {exp})', [x.body for x in reversed(sess.log)] + [o['obj0']])
     data = dict(desc, requests=[x.brief() for x in sess.log], sleeps=o['sleeps'],
                 outcome=(['returned', o['val'][0], o['val'][1], None if o['val'][2] is None else len(o['val'][2].fns)] if o['how'] == 'ok'
                          else ['raised', repr(o['val'])]))
@@ -806,6 +861,10 @@ def patch_obj_descs() -> list[dict]:
             for sub in (False, True):
                 for fault in FAULT_PLANS:
                     for slip in SLIPS:
+                        # without transformations a foreign finalizer edit differs from the annotation edit only for the
+                        # foreign-finalizers monitor: keep it before the first request and with no fault plan
+                        if not has_fns and slip is not None and slip[1] in ('fin_add', 'fin_remove') and (slip[0] > 0 or fault is not None):
+                            continue
                         out.append(case_desc(shape, sub, fault, slip, fnv))
     # hand-seeded cases outside the product
     extra = [
@@ -864,6 +923,8 @@ def apply_descs() -> list[dict]:
     contents: list[tuple[dict, list[str]]] = [({}, []), ({'spec': {'b': 2}, 'status': {'s': 1}}, []), ({}, ['block']),
                                               ({'status': {'s': 1}}, ['statusedit'])]
     for (content, fn_kinds), delays, woken, touched, sub in itertools.product(contents, APPLY_DELAYS, (False, True), (False, True), (False, True)):
+        if sub and 'status' not in content:        # the subresource only matters where a status is patched
+            continue
         for fault in (None, (0, '404'), (1, '422'), (0, '409')):
             out.append({'level': 'function', 'fn': 'apply', 'patch': content, 'fn_kinds': fn_kinds, 'delays': delays, 'woken': woken,
                         'touched': touched, 'subresource': sub, 'fault': list(fault) if fault else None})
@@ -934,6 +995,7 @@ def differential(ctx: fw.Ctx) -> None:
     env = Env()
     try:
         cases: list[fw.Case] = []
+        scases: list[fw.Case] = []
         seen_terms: set[str] = set()
         for desc in corpus_descs(ctx) + patch_obj_descs() + random_descs(ctx, ctx.scale(0, 4000)):
             if desc.get('fn') != 'patch_obj':
@@ -952,6 +1014,13 @@ def differential(ctx: fw.Ctx) -> None:
             seen_terms.add(c.term)
             ctx.count('fn_product', 'distinct-run')
             cases.append(c)
+            sc = server_case(o)
+            if sc is not None:
+                scases.append(sc)
+                ctx.count('server_tie', ('sub' if desc['subresource'] else 'nosub') + ':' + next((x.slipped for x in o['sess'].log if x.slipped), 'undisturbed')
+                          + ':' + ('conflict' if any(x.status == 422 for x in o['sess'].log) else 'accepted'))
+            else:
+                ctx.count('server_tie', 'outside-the-mirrored-server')
             monitor_patch_obj(ctx, o)
             log = o['sess'].log
             ctx.count('fn_requests_sent', str(len(log)))
@@ -966,6 +1035,7 @@ def differential(ctx: fw.Ctx) -> None:
                 ctx.sample({'case': {k: v for k, v in desc.items() if k != 'level'},
                             'requests': [[x.kind, x.ctype, x.status] for x in log], 'outcome': o['how']}, limit=2)
         ctx.differential('patch_obj', HEADER, cases, shard=40)
+        ctx.differential('server', HEADER, scases, shard=40)
 
         apply_layer(ctx, env, seen_terms)
 
